@@ -1691,6 +1691,7 @@ pub fn outcome_probes() -> Vec<(&'static str, &'static str)> {
         ("smrej", "fetched 3 spendmissing ; runv ; runc"),
         ("smrejbrowser", "browser fetched 3 spendmissing ; runv ; runc"),
         ("smrejspv", "spv fetched 3 spendmissing ; runv ; runc"),
+        ("gtvrej", "fetched 3 gtshort ; runv"),
     ]
 }
 
